@@ -368,10 +368,13 @@ def run_case(case):
                     # inputs of the model's find_best_values (M_SelectBest.fbv): the cost of every domain value
                     # (constraints + the variable's own cost) and, as tick() computes it, of the current value
                     vn_ = comp.variable.name
-                    st["costs"] = [_intcost(mod.assignment_cost(dict(assignment, **{vn_: v}), comp.constraints)
-                                            + comp.variable.cost_for_val(v)) for v in comp.variable.domain]
-                    st["cur"] = _intcost(mod.assignment_cost(dict(assignment, **{vn_: comp.current_value}),
-                                                             comp.constraints))
+                    try:
+                        st["costs"] = [_intcost(mod.assignment_cost(dict(assignment, **{vn_: v}), comp.constraints)
+                                                + comp.variable.cost_for_val(v)) for v in comp.variable.domain]
+                        st["cur"] = _intcost(mod.assignment_cost(dict(assignment, **{vn_: comp.current_value}),
+                                                                 comp.constraints))
+                    except Exception:          # e.g. no current value yet: tick() itself fails right after;
+                        st["costs"], st["cur"] = None, None     # a record without costs = run not modelled
                     return r
 
                 def exists_violated_constraint():
